@@ -645,6 +645,11 @@ fn cmd_selftest(what: &str) -> i32 {
             let mut bad = 0;
             let mut total = 0;
             for scn in props::all_scenarios() {
+                // a sweep is thousands of runs in one
+                let n = if matches!(scn, Scenario::T1Sweep(..)) { (n / 100).max(2) } else { n };
+                if scn.name() == "t1-sweep-full" {
+                    continue;
+                }
                 let res: Vec<(u64, u64)> = {
                     let results = Mutex::new(Vec::new());
                     let next = AtomicU64::new(0);
